@@ -587,6 +587,18 @@ def rule_R4(text, log):
     return text2
 
 
+def rule_R4s(text, log):
+    """cfg resolution for the verified configuration (features serde, parse, display on):
+    `#[cfg(feature = "serde")]` and `#[cfg(any(feature = "serde", feature = "parse"))]`
+    attribute lines are removed, the item is kept"""
+    pat = re.compile(r'#\[cfg\((?:feature = "(?:serde|parse|display)"|any\((?:feature = "(?:serde|parse|display)"(?:, )?)+\))\)\][ \t]*\n?')
+
+    def repl(m):
+        log.append({'rule': 'R4s', 'before': m.group(0).strip(), 'after': ''})
+        return ''
+    return pat.sub(repl, text)
+
+
 def rule_R5(text, log):
     """attribute / visibility / path trimming"""
     def drop(m):
@@ -618,7 +630,7 @@ def rule_R5(text, log):
     return text
 
 
-RULES = {'R11c': rule_R11c, 'R13': rule_R13, 'R14': rule_R14, 'R5c': (lambda text, log: text), 'R12': rule_R12, 'R11b': rule_R11b, 'R9': rule_R9, 'R10': rule_R10, 'R11': rule_R11, 'R1': rule_R1, 'R1f': rule_R1f, 'R3f': rule_R3f, 'R8': rule_R8, 'R2': rule_R2, 'R2b': rule_R2b, 'R7': rule_R7, 'R3': rule_R3, 'R4': rule_R4, 'R5': rule_R5}
+RULES = {'R4s': rule_R4s, 'R11c': rule_R11c, 'R13': rule_R13, 'R14': rule_R14, 'R5c': (lambda text, log: text), 'R12': rule_R12, 'R11b': rule_R11b, 'R9': rule_R9, 'R10': rule_R10, 'R11': rule_R11, 'R1': rule_R1, 'R1f': rule_R1f, 'R3f': rule_R3f, 'R8': rule_R8, 'R2': rule_R2, 'R2b': rule_R2b, 'R7': rule_R7, 'R3': rule_R3, 'R4': rule_R4, 'R5': rule_R5}
 
 
 def strip_doc_comments(text):
@@ -999,6 +1011,9 @@ def extract_unit(spec_path, repo, out_path, meta_path=None, canary=None):
         elif kind == 'closure_arg':
             # the closure passed as the argument of a call located by a regex inside a function,
             # wrapped in a synthetic signature whose parameter names are the closure's
+            if 'within_impl' in item:
+                _, _, iop, icl = locate_impl(src, item['within_impl'], item.get('within_trait'))
+                lo, hi = iop, icl
             fs, _, fo, fc = locate(src, 'fn', item['within_fn'], lo, hi)
             lo_off, hi_off = src.tok(fo)[3], src.tok(fc)[2]
             ms = list(re.compile(item['call']).finditer(src.text, lo_off, hi_off))
